@@ -176,7 +176,11 @@ theorem tie_script_RemoveBeaconProcess : Gen.Routing.script_RemoveBeaconProcess 
   "dd.state.Unlock()"
 ] := rfl
 
-theorem tie_script_LoadBeaconFromStore : Gen.Routing.script_LoadBeaconFromStore = [
+/-- two reviewed texts: the as-is start-up path and the one that reconciles the key files with the completed DKG record before
+`bp.Load` (reports/crash2_fix_1.diff, C13 `Gen.startupVariant`); the inserted call passes on the same `beaconID` and `store`, the
+registration under `beaconID` (`AddBeaconHandler`) is the same statement in both -/
+theorem tie_script_LoadBeaconFromStore :
+    Gen.Routing.script_LoadBeaconFromStore = [
   "bp,err:=dd.InstantiateBeaconProcess(ctx,beaconID,store)",
   "if err!=nil {",
   " return nil,err",
@@ -212,7 +216,47 @@ theorem tie_script_LoadBeaconFromStore : Gen.Routing.script_LoadBeaconFromStore 
   "if err!=nil {",
   "}",
   "return bp,err"
-] := rfl
+] ∨
+    Gen.Routing.script_LoadBeaconFromStore = [
+  "bp,err:=dd.InstantiateBeaconProcess(ctx,beaconID,store)",
+  "if err!=nil {",
+  " return nil,err",
+  "}",
+  "status,err:=dd.dkg.DKGStatus(ctx,&pdkg.DKGStatusRequest{BeaconID:beaconID})",
+  "if err!=nil {",
+  " return nil,err",
+  "}",
+  "freshRun:=status.Complete==nil",
+  "if freshRun {",
+  " g,err:=store.LoadGroup()",
+  " if err!=nil&&!errors.Is(err,fs.ErrNotExist) {",
+  "  return nil,err",
+  " }",
+  " if g==nil {",
+  "  return bp,nil",
+  " }",
+  " if gFP:=key.GroupFilePath(store); gFP!=\"\" {",
+  " }",
+  " share,err:=store.LoadShare()",
+  " if err!=nil {",
+  "  return nil,err",
+  " }",
+  " if err:=dd.dkg.Migrate(beaconID,g,share); err!=nil {",
+  "  return nil,err",
+  " }",
+  "} else if err:=dd.reconcileKeyFiles(beaconID,bp,store); err!=nil {",
+  " return nil,err",
+  "}",
+  "if err:=bp.Load(ctx); err!=nil {",
+  " return nil,err",
+  "}",
+  "dd.AddBeaconHandler(ctx,beaconID,bp)",
+  "err=bp.StartBeacon(ctx,true)",
+  "if err!=nil {",
+  "}",
+  "return bp,err"
+] := by
+  first | exact Or.inl rfl | exact Or.inr rfl
 
 theorem tie_script_LoadBeaconFromDisk : Gen.Routing.script_LoadBeaconFromDisk = [
   "store:=key.NewFileStore(dd.opts.ConfigFolderMB(),beaconID)",
